@@ -631,6 +631,13 @@ func (t *streamableHTTPClientTransport) getLastEventID() string {
 
 // setLastEventID records the id of the last SSE event seen.
 func (t *streamableHTTPClientTransport) setLastEventID(id string) {
+	// The id is echoed in the Last-Event-ID request header: one containing control characters (WHATWG
+	// ignores ids containing NUL) would make every later request fail in net/http. Keep the previous id.
+	for i := 0; i < len(id); i++ {
+		if id[i] < 0x20 || id[i] == 0x7f {
+			return
+		}
+	}
 	t.stateMu.Lock()
 	t.lastEventID = id
 	t.stateMu.Unlock()
